@@ -66,6 +66,12 @@ def gen_cases(rng, tier):
                     if rng.random() < 0.6:
                         p_["value"] = rand_value(rng, p_, sp["method"]["N"])
                         p_["own_value"] = True
+                if k == nst - 1 and sp.get("dyn") == "ode" and rng.random() < 0.4:
+                    # the last clone declares one derivative again, with its own scale: siblings keep theirs
+                    cand_ = [s_ for s_ in sp["states"] if not s_.get("quad")]
+                    s_ = rng.choice(cand_)
+                    s_["der_scale"] = ocpgen.rnd(rng, 0.2, 8.0, 3)
+                    sp["clone_der_scale"] = s_["name"]
                 continue
             sp["constraints"] = [ocpgen.gen_constraint(rng, sp, 100 * (k + 1) + j, grids=["control", "integrator"],
                                                        allow_offsets=False) for j in range(rng.randint(1, 2))]
@@ -202,6 +208,10 @@ def build_multistage(case):
             for p_ in sp["params"]:
                 if p_.get("own_value"):
                     C.call("set_value(clone)", st.set_value, b.syms[p_["name"]], build.param_value(p_))
+            if sp.get("clone_der_scale"):
+                nm_ = sp["clone_der_scale"]
+                s_ = [q for q in sp["states"] if q["name"] == nm_][0]
+                C.call("set_der(clone, scale)", st.set_der, b.syms[nm_], b.ca_mat(sp["rhs"][nm_]), scale=s_["der_scale"])
             builts.append(b)
     # couplings and parent objective
     if not late:
@@ -421,6 +431,27 @@ def run_case(case):
             except C.RockitRaised as e:
                 res["violations"].append(C.exc_violation(ID, e, mode))
                 return res
+    # an edit made through a sub-stage object after the transcription is honoured by the next transcription
+    if not res["violations"]:
+        k = int(rng.integers(0, len(builts)))
+        b = builts[k]
+        xl = b.spec["leaves"]["x"][0]
+        try:
+            C.call("subject_to(stage, transcribed)", b.stage.subject_to, b.ca(xl) <= 50.0, meta=build.meta_for(7777))
+            view2 = C.call("transcribe(after stage edit)", nlp.NlpView, ocp)
+            nrows = int(np.sum(view2.row_cid == 7777))
+            res["evals"] += 1
+            res["counters"]["stage_edit_after_transcription"] = 1
+            want = b.spec["method"]["N"] + 1
+            if nrows != want:
+                res["violations"].append({
+                    "kind": "stage-edit-ignored", "mech": "C12|edit-through-stage-after-transcription",
+                    "detail": "stage %d: subject_to(x <= 50) declared through the stage object after the transcription; the next "
+                              "transcription has %d instances of it, expected %d" % (k, nrows, want)})
+                return res
+        except C.RockitRaised as e:
+            res["violations"].append(C.exc_violation(ID, e, mode))
+            return res
     # the template can be cloned again
     if tmpl is not None:
         try:
